@@ -574,14 +574,15 @@ impl MutableArchive {
 
         // Pending modifications have to be on disk and visible to the read handle: the
         // listing and the reads below go through it, and it was opened before they were made
+        // (also after an explicit flush: the handle still shows the archive as it was opened)
         if self.dirty {
             self.flush()?;
-            self.archive = Archive::open(&self._path)?;
-            self.hash_table = None;
-            self.block_table = None;
-            self._hi_block_table = None;
-            self.next_file_offset = None;
         }
+        self.archive = Archive::open(&self._path)?;
+        self.hash_table = None;
+        self.block_table = None;
+        self._hi_block_table = None;
+        self.next_file_offset = None;
 
         // Ensure tables are loaded
         self.ensure_tables_loaded()?;
@@ -1146,7 +1147,12 @@ impl MutableArchive {
 
         // Add new filename if not already present
         let filename_line = filename.to_string();
-        if !current_content.contains(&filename_line) {
+        // whole-line comparison: a substring test would treat "b.txt" as already listed
+        // when "sub\\b.txt" is
+        if !current_content
+            .lines()
+            .any(|line| line.trim() == filename_line)
+        {
             if !current_content.ends_with('\n') && !current_content.is_empty() {
                 current_content.push('\n');
             }
